@@ -101,3 +101,40 @@ PROPS["C04"] = {
     "runs": [{"engine": "agent"}],
     "assumptions": ["lane failure is injected by the rawagent engine, not here"],
 }
+
+PROPS["C12"] = {
+    "title": "Byte channels are lossless bounded FIFO pipes with no lost wake-ups",
+    "level": "exploration",
+    "design_ref": "DESIGN.md §3 C12",
+    "technique": "bounded-exhaustive poll-level execution of the real byte channel against a reference FIFO with counting wakers; random long sequences; two-thread stress; ThreadSanitizer and Miri",
+    "text": "Every interleaving of poll_read / poll_write / flush / shutdown / drop up to 7 operations (8 thorough) is run on the real byte_channel for capacities 1-3 and request sizes 1-3, with and without the coop budget (1-4): 5e7 sequences quick, 4e8 thorough, each followed by drop-writer and drain-to-EOF, plus random 200-operation sequences up to capacity 64. Every call is judged against a reference FIFO: content, capacity bound, legality of Pending / EOF / error, and the wake obligation (a side whose last poll was Pending must be woken by the call that makes progress possible or closes). A two-thread AsyncRead/AsyncWrite stress checks stream equality and termination and is repeated under TSan (quick) and Miri (thorough).",
+    "note": "Trusted base: the harness model (VecDeque + two closed flags), tokio ReadBuf and the std Wake machinery; a Pending during which the caller's own waker fired is a budget-forced yield and legal. Beyond the depth bound the assurance is statistical.",
+    "runs": [{"engine": "bytechan"}],
+    "sanitizers": [
+        {"kind": "tsan", "engine": "bytechan", "args": ["--scale", "1", "--only", "threaded"], "quick": True, "timeout_s": 1800},
+        {"kind": "miri", "engine": "bytechan", "args": ["--scale", "0.002", "--threads", "1"], "timeout_s": 3600},
+    ],
+    "assumptions": ["single reader and single writer (enforced by ownership)", "after shutdown with the writer alive both EOF and Pending are accepted before the drop", "a watchdog timeout in the threaded part is inconclusive; the deterministic parts decide"],
+}
+
+PROPS["C06"] = {
+    "title": "Event handlers run one at a time, depth-first, in the documented order",
+    "level": "exploration",
+    "design_ref": "DESIGN.md §3 C06",
+    "technique": "runtime monitoring with a differential oracle: generated handler programs interpreted into real boxed EventHandlers on a derived agent under the real runtime vs a reference interpreter of the documented semantics",
+    "text": "100 000 (quick) / 3 000 000 (thorough) generated handler programs over the documented combinators (set/update/remove/clear/get/effect/and_then/followed_by/suspend/fail/stop/command) are interpreted into real EventHandlers on a derived agent (3 value lanes, 2 map lanes, value store, map store, 2 command lanes) run by the real AgentRouteTask/AgentModel loop under remote command and sync frames, harness-completed suspended futures and poll jitter. The full execution trace (handler entries with arguments and previous values, reads, writes) and all final item states must equal those of a reference interpreter of docs/event_handler.md + lifecycle.md: depth-first, on_event then on_set, true previous entry, on_start first, on_stop last, each change triggers once, nothing of a handler or of the handlers it interrupted after a failure.",
+    "note": "Trusted base: the ~330-line reference interpreter and the program-to-handler interpretation; logging only through context.effect / map closures. Acyclic programs only; cascades up to depth 8. Whether the agent task as a whole fails after a handler failure is *not* part of the statement: the runtime swallows a failure of a handler started by a remote command (logged as a rejected frame) and that is counted as an observation (--lenient-external-fail), not a violation.",
+    "runs": [{"engine": "handlers", "args": ["--lenient-external-fail", "1"]}],
+    "assumptions": ["one remote; order between frames to different lanes is only checked at quiescence", "a set to the same value and a clear of an empty map are accepted with or without triggering"],
+}
+
+PROPS["C05"] = {
+    "title": "Persisted state is never older than what was published; restart restores it",
+    "level": "fault_enumeration",
+    "design_ref": "DESIGN.md §3 C05",
+    "technique": "runtime monitoring with a recording NodePersistence + fault enumeration: restart of the real agent at every cut point of the store-operation log and after injected crashes (all tasks dropped at a seeded await point)",
+    "text": "The real agent runtime runs with a harness NodePersistence (public trait) that tickets every call on the same clock as the remotes' frame logs. (1) Every event frame of a persistent lane must carry a state that was handed to the store at an earlier ticket. (2) For the cut points of the store-operation log (all of them in the thorough tier and for logs up to 24 operations, a seeded third otherwise, always including the empty and the final store) the store is rebuilt from that prefix, a fresh agent instance is started against it by the real runtime, a probe syncs every lane and a handler dumps the stores: persistent lanes/stores must hold exactly the fold of the prefix, transient ones their defaults. (3) The first incarnation ends by clean stop or by a crash that drops every task at a seeded script step; the restart against the store as it survived is the final cut point.",
+    "note": _AGENT_NOTE + " The crash model is 'all tasks dropped between two polls' (what a panic or process kill does to the in-memory store contract); durability of a real on-disk store under process kill is C13's business.",
+    "runs": [{"engine": "agent"}],
+    "assumptions": ["store operations are atomic calls (the trait is synchronous)", "ids handed out by id_for survive the crash"],
+}
